@@ -67,6 +67,18 @@ class C13:
             free.append('lens_angle')
         if not free:
             free = ['r', 'z']
+        # coordinates measured from where the particle is expected: the
+        # starting value of one in-plane coordinate is EXACTLY 0 and the
+        # generating value a small non-zero number
+        zero_guess = None
+        cand0 = [k for k in ('x', 'y') if k in free]
+        if start != 'truth' and cand0 and rng.random() < 0.2:
+            zero_guess = rng.choice(cand0)
+            i0 = 0 if zero_guess == 'x' else 1
+            d0 = rng.choice([-1, 1]) * rfloat(rng, 0.005, 0.04, 4)
+            shift = list(shift) if shift else [0.0, 0.0]
+            shift[i0] = round(shift[i0] + d0 - truth[zero_guess], 6)
+            truth[zero_guess] = d0
         guesses = {}
         priors = {}
         for k in free:
@@ -76,6 +88,8 @@ class C13:
             if k in ('x', 'y'):
                 g = t if start == 'truth' else round(
                     t + rng.choice([-1, 1]) * rfloat(rng, 0.005, 0.04, 4), 6)
+            if k == zero_guess:
+                g = 0.0
             guesses[k] = g
             w = {'x': 0.5, 'y': 0.5, 'z': 3.0, 'r': 0.25, 'n': 0.1,
                  'alpha': 0.3, 'lens_angle': 0.3}[k]
@@ -315,6 +329,7 @@ class C13:
                                      'src': p2})
         return {'config': {'faults': faults, 'truth': truth, 'free': free,
                            'guesses': guesses, 'priors': priors,
+                           'zero_guess': zero_guess,
                            'start': start, 'full': full, 'lens': lens,
                            'excluded': excluded, 'onbound': onbound,
                            'onbound_single': onbound_single,
@@ -557,8 +572,11 @@ class C13:
         worst = 0.0
         for k in cfg['free']:
             if k in pars:
+                # a coordinate measured from (nearly) the particle itself
+                # has no scale of its own: judged on the scale of the frame
+                den = 1.0 if k == cfg.get('zero_guess') else 1e-12
                 worst = max(worst, abs(pars[k] - truth[k]) /
-                            max(abs(truth[k]), 1e-12))
+                            max(abs(truth[k]), den))
         mx = ex.stats.setdefault('maxerr', {})
         label = ('fixed_point' if cfg['start'] == 'truth' else
                  'recover_full' if cfg['full'] and not cfg['lens']
